@@ -339,8 +339,11 @@ written**, the dictionary with the new word is dropped with the handler's frame 
 file dictionary in memory) — then `update_document_from_file(url)` — fails likewise, so the document
 keeps its dictionary, linter and lints — then `publish_diagnostics(url)` (the unchanged lints are
 published again). The response is `Ok(None)` in every case: the client is told nothing.
-For `untitled:/a/b.md` the dictionary that is saved is `{w}` alone (the old file was never loaded) and
-it REPLACES the file dictionary of `/a/b.md`.
+For an `untitled:` URL `save_file_dictionary` returns `Ok(())` at once WITHOUT writing (same guard as
+`load_file_dictionary`; repo commit 861d597): nothing is written and nothing is kept, with or without a
+path. (Before 861d597 `untitled:/a/b.md` saved the dictionary `{w}` alone — the old file was never
+loaded — and so REPLACED the file dictionary of `/a/b.md`; finding of w24, repaired.) For
+`untitled:/a/b.md` the document is then re-read from its path like a `file:` document (`mem`).
 (`mem` for a URL with a path assumes, as for `file:` URLs, that the path can be read from disk.)
 
 `lint`: when `generate_file_dictionary` fails, `update_document` returns `Err` before it touches
@@ -356,8 +359,10 @@ def step (f : Fns) (cur : List Entry) (s : State) : Op → State × List Bool
     | none => (s, [])
     | some d =>
       if u.path then
-        let disk := run (saveTrace (orderOf ord (insert f w d))) old
-        ({ s with files := (name, disk) :: s.files, mem := loadOrEmpty f s.user }, [])
+        if u.untitled then ({ s with mem := loadOrEmpty f s.user }, [])
+        else
+          let disk := run (saveTrace (orderOf ord (insert f w d))) old
+          ({ s with files := (name, disk) :: s.files, mem := loadOrEmpty f s.user }, [])
       else (s, [])
   | .restart => ({ s with mem := [] }, [])
   | .crashAdd w ord k j =>
